@@ -171,3 +171,52 @@ def c11_churn(rng, sid, nscen):
             steps.append(BARRIER)
         out.append({"id": "%s-churn%d" % (sid, i), "cfg": {"mode": rng.choice(["overlap", "onlyonce"]), "qq0": True}, "steps": steps})
     return out
+
+
+def c07_retained(rng, sid, nscen):
+    """histories of retained publishes / clears (also through a topic alias), then subscriptions of every shape
+    (filter, QoS, Retain Handling, RAP, version, shared) including re-subscription"""
+    out = []
+    topics = ["a", "a/b", "a/b/c", "b", "$s/x", "a/", "/a", "a//c"]
+    filters = ["a", "a/b", "a/#", "a/+", "#", "+", "+/+", "a/b/#", "$s/#", "$s/+", "+/b/#", "/a", "a/", "/#", "b", "a/+/c"]
+    for i in range(nscen):
+        steps = [connect(1, "p", 5), connect(2, "s5", 5), connect(3, "s3", rng.choice([3, 4]))]
+        n = 0
+        alias = {}
+        for _ in range(rng.randrange(3, 9)):
+            n += 1
+            t = rng.choice(topics)
+            clear = rng.random() < 0.25
+            st = pub(1, t, rng.randrange(3), "" if clear else "r%d" % n, retain=rng.random() < 0.85)
+            r = rng.random()
+            if r < 0.3:
+                if t in alias:
+                    st["alias"] = alias[t]
+                    st["notopic"] = True
+                elif len(alias) < 5:
+                    alias[t] = len(alias) + 1
+                    st["alias"] = alias[t]
+            if clear and not st["retain"]:
+                st["tag"] = "n%d" % n      # an empty non-retained message is just a message
+            steps.append(st)
+        steps.append(BARRIER)
+        for _ in range(rng.randrange(3, 8)):
+            k = rng.choice([2, 2, 3])
+            f = rng.choice(filters)
+            if k == 2:
+                s = {"n": f, "qos": rng.randrange(3), "rh": rng.choice([0, 0, 1, 1, 2]), "rap": rng.random() < 0.4, "nl": False}
+                if rng.random() < 0.15:
+                    s["n"] = "$share/g/" + f
+                    s["nl"] = False
+                steps.append(sub(2, [s], subid=rng.choice([0, 9])))
+            else:
+                steps.append(sub(3, [{"n": f, "qos": rng.randrange(3)}]))
+            steps.append(BARRIER)
+            if rng.random() < 0.3:
+                # live forwarding of a retained publication to the existing subscriptions, and the store changes
+                n += 1
+                t = rng.choice(topics)
+                steps.append(pub(1, t, rng.randrange(3), "" if rng.random() < 0.3 else "r%d" % n, retain=True))
+                steps.append(BARRIER)
+        out.append({"id": "%s-ret%d" % (sid, i), "cfg": {"mode": rng.choice(["overlap", "onlyonce"]), "qq0": True}, "steps": steps})
+    return out
